@@ -104,6 +104,11 @@ def _canon(p: Any) -> Any:
             if {lo, hi} == {x, y} and x != y:
                 # taken value x when lo < hi: x == hi -> max, x == lo -> min
                 return _mk("max" if x == hi else "min", [x, y])
+            # the same with a common shift: `a - 1 if b < a else b - 1`
+            if lo != hi and (x - hi) == (y - lo):
+                return _mk("max", [lo, hi]) + (x - hi)
+            if lo != hi and (x - lo) == (y - hi):
+                return _mk("min", [lo, hi]) + (x - lo)
         if a[0] == "app" and a[1] in ("max", "min"):
             return _mk(a[1], [_canon(q) for q in a[2]])
         if a[0] == "app":
